@@ -42,8 +42,8 @@ TraceBuild ==
     /\ tar' = Ev.tar /\ prio' = Ev.prio /\ allow' = Ev.allow /\ eff' = EffOf(Ev.tar)
     /\ opt' = Ev.opt
     /\ LET r == SortEntries(Ev.tar, Ev.prio, Ev.allow) IN
-       /\ Ev.err \in {"", "notfound"}
-       /\ r.err = (Ev.err = "notfound")
+       /\ Ev.err \in {"", "notfound", "loop"}
+       /\ r.err = (Ev.err # "") /\ r.why = Ev.err
        /\ r.out = Ev.order
        /\ r.missed = Ev.missed
        /\ res' = r
